@@ -206,10 +206,11 @@ class BoundsAnalysis:
         return k if self.ret_summaries.get(('ident', t.key)) else None
 
     # ---- main -----------------------------------------------------------------------------------
-    def analyse(self, func, entry_facts=()):
+    def analyse(self, func, entry_facts=(), queries=None):
         if func.cfg_error:
             return []
         A = _FuncAnalysis(self, func, entry_facts)
+        A.queries = queries or {}
         obls = A.run()
         self.obligations += obls
         return obls
@@ -237,6 +238,7 @@ class _FuncAnalysis:
         self.unsigned_syms = set()
         self.collect_returns = None
         self.collect_ptr_returns = None
+        self.queries = {}
 
     # ---- symbols --------------------------------------------------------------------------------
     def vsym(self, ref):
@@ -708,6 +710,16 @@ class _FuncAnalysis:
                     ss = strip(src)
                     sk = Lin.sym(('strlen', self.strkey(ss), render(ss)))
                     new_facts += [X - ren(sl), ren(sl) + sk - X - Lin.const(1)]
+                    if name in ('strstr', 'strcasestr') and len(r.ch) > 2:
+                        nd = strip(r.ch[2])
+                        if nd is not None and nd.k == 'StringLiteral':
+                            nl = Lin.const(nd.get('slen', 0))
+                        else:
+                            nl = Lin.sym(('strlen', self.strkey(nd), render(nd)))
+                        # the whole match lies inside the haystack
+                        new_facts.append(ren(sl) + sk - X - nl)
+                        if new_region is not None and new_region.end is not None:
+                            new_facts.append(new_region.end - X - nl)
                 if new_region is not None and new_region.end is not None:
                     new_facts.append(new_region.end - X - Lin.const(1))
                 val = None
@@ -726,11 +738,13 @@ class _FuncAnalysis:
                     elif new_region.cap is not None:
                         new_facts.append(new_region.base + new_region.cap - X - Lin.const(1))
                 val = None
-            elif is_ptr and (name in ('getenv',) or (name and self.prog.func(name, self.func.tu) is None and
-                             (r.get('ct') or '').replace('const', '').strip() in ('char *',))):
+            elif is_ptr and (name in ('getenv',) or (name and (r.get('ct') or '').replace('const', '').strip() in ('char *',))):
                 reg = self.region_for_opaque_string(r)
                 new_region = reg
                 new_facts += [X - reg.base, reg.base - X]
+                # end(R) is by definition the terminator of the string as returned
+                sl0 = Lin.sym(('strlen', ('decl', vid), ref['name']))
+                new_facts += [reg.end - X - sl0, X + sl0 - reg.end]
                 val = None
             elif not is_ptr:
                 rf = self.call_result_facts(st, r, X)
@@ -763,6 +777,8 @@ class _FuncAnalysis:
         if name in ('read', 'readlink', 'recv') and len(args) >= 3:
             n = self.lin(args[2], st)
             return [res + Lin.const(1)] + ([n - res] if n is not None else [])
+        if name in ('ftell', 'ftello', 'lseek', 'fileno', 'open', 'socket'):
+            return [res + Lin.const(1)]
         if name == 'strftime' and len(args) >= 2:
             n = self.lin(args[1], st)
             return [res] + ([n - res - Lin.const(1)] if n is not None else [])
@@ -788,6 +804,11 @@ class _FuncAnalysis:
 
     def transfer(self, st, e):
         k = e.k
+        qs = self.queries.get(e.id) if self.queries else None
+        if qs:
+            for name, fn in qs:
+                ok, detail = fn(self, st)
+                self.oblige('query', e, name, ok, detail)
         if k == 'DeclStmt':
             for d in e['decls']:
                 ref = {'id': d['id'], 'name': d['name'], 'kind': 'var'}
@@ -852,7 +873,8 @@ class _FuncAnalysis:
             if self.collect_returns is not None:
                 v = self.lin(e.ch[0], st)
                 self.collect_returns.append(v is not None and self.entails(st, v))
-            if self.collect_ptr_returns is not None:
+            if self.collect_ptr_returns is not None and not (strip(e.ch[0]).get('null') or e.ch[0].get('null')
+                                                              or strip(e.ch[0]).get('v') == 0):
                 v = self.lin(e.ch[0], st)
                 reg = self.region_of(e.ch[0], st)
                 idx = None
@@ -1101,6 +1123,11 @@ class _FuncAnalysis:
                 return [a - b]
             if op == '==':
                 return [a - b, b - a]
+            # a != b: tighten a one-sided bound that is already known
+            if self.entails(st, a - b):
+                return [a - b - one]
+            if self.entails(st, b - a):
+                return [b - a - one]
             return []
         # bare char test: while (*s)
         if c.k == 'UnaryOperator' and c['op'] == '*' and 'char' in (c.get('ct') or ''):
@@ -1170,6 +1197,9 @@ class _FuncAnalysis:
             if ct.rstrip().endswith('*') and ('char' in ct or 'void' in ct) and ct.count('*') == 1:
                 reg = self.region_for_param(i)
                 regions.add((p['id'], reg.key))
+                if 'char' in ct:
+                    sl0 = Lin.sym(('strlen', ('decl', p['id']), p['name']))
+                    init_facts |= {reg.end - cur - sl0, cur + sl0 - reg.end}
         init = State(frozenset(init_facts), frozenset(regions))
         instate = {b: None for b in func.blocks}
         instate[func.entry] = init
